@@ -1,0 +1,28 @@
+//go:build verif
+
+package audit
+
+import "github.com/jdillenkofer/pithos/internal/auditlog"
+
+// specOutcome is the outcome an entry records: pending for a START entry, error or success for a COMPLETE entry
+// according to the error of the audited call.
+func specOutcome(phase auditlog.Phase, failed bool) auditlog.OutcomeType {
+	if phase != auditlog.PhaseComplete {
+		return auditlog.OutcomePending
+	}
+	if failed {
+		return auditlog.OutcomeError
+	}
+	return auditlog.OutcomeSuccess
+}
+
+// specGrounding is the grounding details of an entry, nil when it has none.
+func specGrounding(d any) *auditlog.GroundingDetails {
+	gd, _ := d.(*auditlog.GroundingDetails)
+	return gd
+}
+
+func specLogOf(d any) *auditlog.LogDetails {
+	ld, _ := d.(*auditlog.LogDetails)
+	return ld
+}
